@@ -99,6 +99,18 @@ def canon_save(j, drop_choice_index=False):
     return j
 
 
+def canon_nan(v):
+    """{"f": bits}: every NaN is one value (sign and payload of a NaN are not observable in Ink;
+    Lean's `toBits` canonicalises them)."""
+    if isinstance(v, dict):
+        if set(v) == {"f"} and isinstance(v["f"], int) and (v["f"] & 0x7F800000) == 0x7F800000 and (v["f"] & 0x7FFFFF):
+            return {"f": "nan"}
+        return {k: canon_nan(x) for k, x in v.items()}
+    if isinstance(v, list):
+        return [canon_nan(x) for x in v]
+    return v
+
+
 def canon_events(evs):
     """Observer notifications of one call come out in hash order in the real code: sort them.
     Handler and external-call events keep their order."""
@@ -119,7 +131,7 @@ def canon_result(op, r, messages=True, lockstep=False):
         v = r.get("v")
         if op and op[0] == "savejson":
             v = canon_save(v, drop_choice_index=lockstep)
-        out["v"] = v
+        out["v"] = canon_nan(v)
     elif r.get("r") == "err":
         out["k"] = r.get("k")
         if messages and r.get("k") != "BadJson":
